@@ -245,9 +245,15 @@ def layout(rc):
     if not okb:
         rc.fail(wb, wb.node, "BIF: the i-th conditional row must be column i of the 2-D table, labelled with the i-th element of the row-major product of the parents' states "
                 "in the CPD's own evidence order", construct="BIF writer rows")
-    pw = repo.func(BIF, "BIFWriter.get_parents")
-    if not any(tm.is_(n_, "_R[_c.variable] = _c.variables[1:]") is not None for n_ in ast.walk(pw.node) if isinstance(n_, ast.Assign)):
-        rc.fail(pw, pw.node, "BIF: the parents printed in the header must be the CPD's own evidence order", construct="BIF header order")
+    for rel_, q_, fmt_ in ((BIF, "BIFWriter.get_parents", "BIF"), (NET, "NETWriter.get_parents", "NET")):
+        pw = repo.func(rel_, q_)
+        own = any(tm.is_(n_, "_R[_c.variable] = _c.variables[1:]") is not None or tm.is_(n_, "_R[_c.variable] = _c.get_evidence()[::-1]") is not None
+                  or tm.is_(n_, "_R[_c.variable] = list(_c.variables[1:])") is not None for n_ in ast.walk(pw.node) if isinstance(n_, ast.Assign))
+        graph = [c_ for c_ in repo.calls_in(pw) if call_name(c_) in ("get_parents", "predecessors", "in_edges", "edges")]
+        rc.ob(f"{q_}: header parents = the CPD's own evidence order: {own}; graph queries: {[norm(g_) for g_ in graph]}")
+        if not own or graph:
+            rc.fail(pw, graph[0] if graph else pw.node, f"{fmt_}: the parents printed in the header must be the CPD's own evidence order (the table that follows is laid out over it); "
+                    "the graph lists the same parents in edge-insertion order", construct=f"{fmt_} header order")
     rb = repo.func(BIF, "BIFReader._get_values_from_block")
     _, bn = tm.find(rb.node, "_VN, _PA = (_NM[0][0], _NM[0][1:])")
     ok_r = ok_split = False
@@ -493,6 +499,9 @@ def defuse(rc):
     _sh.defuse_rule(rc, _sh.anchor_files("C09"))
 
 MUTANTS = [
+    dict(kind="break", name="net-writer-parents-from-graph", file=NET, expect="C09.layout",
+         old="        cpds = self.model.get_cpds()\n        variable_parents = {}\n        for cpd in cpds:\n            variable_parents[cpd.variable] = cpd.variables[1:]\n        return variable_parents\n\n    def write_net",
+         new="        variable_parents = {}\n        for variable in self.variables:\n            variable_parents[variable] = self.model.get_parents(variable)\n        return variable_parents\n\n    def write_net"),
     dict(kind="break", name="xmlbif-writer-c-order", file=XML, expect="C09.layout",
          old="for val in compat_fns.ravel_f(cpd.get_values()):", new="for val in cpd.get_values().ravel():"),
     dict(kind="break", name="xmlbif-reader-c-order", file=XML, expect="C09.layout",
